@@ -22,6 +22,11 @@ where
     I: Interner,
 {
     fn could_match(&self, interner: I, db: &dyn UnificationDatabase<I>, other: &T) -> bool {
+        #[cfg(chalk_verif)]
+        if crate::verif::could_match_always() {
+            crate::verif::probe("could_match.prefilter_skipped");
+            return true;
+        }
         return Zip::zip_with(
             &mut MatchZipper { interner, db },
             Variance::Invariant,
